@@ -97,6 +97,11 @@ def coq_paths(ctx, which):
         paths.append({"callback": cb, "mutator": mut,
                       "context": {"isQuery": q == "true", "nestedView>0": v == "true", "amount>0": p == "true",
                                   "amount==0": z == "true", "forkVersion>=5": f5 == "true"}})
+    # guard against a silent parse failure: a non-empty list must yield parsed items
+    m = re.search(r"P\s*=\s*(.*?)\s*:\s*list", flat)
+    body = m.group(1).strip() if m else None
+    if body is None or (body not in ("[]", "nil") and not paths):
+        return None, "could not parse the printed path list:\n" + out[-1500:]
     return paths, out
 
 
@@ -111,8 +116,11 @@ def run(ctx):
     cres = scan_c(ctx, cbs)
     ctx.obligations += 1 + 2          # generated reflection obligation + two C-side obligations
     # ---- paths
-    bad, out1 = coq_paths(ctx, "good") if True else ([], "")
+    bad, out1 = coq_paths(ctx, "good")
     f13, out2 = coq_paths(ctx, "f13")
+    if bad is None:
+        ctx.violation("could not evaluate the analysis on the translated callbacks", {"log": out1[-2000:]}, no_input=True)
+        bad = []
     ok_gen = pr["ok"] and bad == []
     if ok_gen:
         ctx.discharged += 1
